@@ -312,6 +312,22 @@ class Run:
             _tls.rec = None
         return self
 
+    def nonfinite(self) -> bool:
+        """did the user's objective or gradient return a non-finite value (overflow, nan)?
+        Such runs are outside the domain the properties quantify over."""
+        from harness.common import hexf, hexv
+        import math
+        for v in self.rec.F.values():
+            if not v.startswith("!") and not math.isfinite(hexf(v)):
+                return True
+        for v in self.rec.G.values():
+            if not v.startswith("!") and not all(math.isfinite(t) for t in hexv(v)):
+                return True
+        for (_, _, _, g) in self.rec.FD:
+            if not all(math.isfinite(t) for t in hexv(g)):
+                return True
+        return False
+
     def user_raised(self) -> bool:
         """did a user callable raise during this run?"""
         rec = self.rec
